@@ -1,6 +1,7 @@
 import Rl4co.Core.Proto
 import Rl4co.Env.Mcp
 import Rl4co.Spec.Mcp
+import Rl4co.Spec.SelectOpt
 import Rl4co.Driver.Flp
 namespace Rl4co.Driver.Mcp
 open Rl4co.Proto
@@ -31,7 +32,15 @@ def episode (toks : List String) : Option String := do
   let fin := exec Rl4co.Mcp.env i (Rl4co.Mcp.reset i) as
   pure s!"{tr} chosen={chosen} weights={wts} mem={mem} unc={unc} rem={rem} reward={Rl4co.Mcp.reward i fin} feas={bit (Rl4co.Spec.Mcp.feasible i as)} obj={Rl4co.Spec.Mcp.objective i as} bound={q}"
 
+/-- `mcp.opt …` (arguments of `mcp.episode`, actions ignored) → brute-force optimum (`Spec.Mcp.optimum`) -/
+def opt (toks : List String) : Option String := do
+  let [hd, mm, ww, _] ← parseSections toks | none
+  let [ns, ni, ms, q] := hd | none
+  let ns := ns.toNat; let ni := ni.toNat; let ms := ms.toNat
+  let i : Rl4co.Mcp.Inst := { nSets := ns, nItems := ni, maxSize := ms, quota := q, mem := fnMem ms mm, w := fn1 ww }
+  pure s!"opt={Rl4co.Spec.Mcp.optimum i} nfeas={(Rl4co.Spec.Mcp.candidates i).length}"
+
 def handlers : List (String × (List String → Option String)) :=
-  [("mcp.episode", episode)]
+  [("mcp.episode", episode), ("mcp.opt", opt)]
 
 end Rl4co.Driver.Mcp
